@@ -43,6 +43,7 @@ func c20(c *ev.Ctx) {
 	c20HostFunctions(c)
 	c20NoOptimize(c)
 	c20Orders(c)
+	c20RePrepare(c)
 	c20CLI(c)
 }
 
@@ -410,6 +411,103 @@ func c20Orders(c *ev.Ctx) {
 		}
 		c.Case(strings.Join(log, ";"), true)
 		c.SampleEvery(i, func() interface{} { return log })
+	})
+}
+
+// c20RePrepare: the Script field is public, so a host may prepare one evaluator again
+// with another script. After a successful re-Prepare it must behave like a fresh
+// evaluator of the new script (holding the same variables); after a refused one it must
+// keep behaving like the old script; Dump must work either way; the prepared program
+// must verify (C18's verifier) in both cases.
+func c20RePrepare(c *ev.Ctx) {
+	refused := []string{"1 += 2;", "!true += 1;", "3 = 4;", "x = (1 + ;", "return \"open;", "f() -= 1;", "if (a) { b = 1;", "local q;", "x = 1 @ 2;", "return a ? b ? 1 : 2 : 3;"}
+	n := c.Pick(400, 15000)
+	c.ParFor(n, func(i int) {
+		id := fmt.Sprintf("reprepare/%d", i)
+		if !c.Want(id) {
+			return
+		}
+		r := c.Rng("reprepare", i)
+		mk := func() (string, *gen.Env) {
+			env := gen.NewEnv(r)
+			pg := &gen.ProgGen{R: r, E: &gen.ExprGen{R: r, Env: env, Calls: true}, CondFields: 2, MaxDepth: 2, MaxStmts: 3, Funcs: r.Intn(4), Mutators: true}
+			return gast.Text(pg.Program()), env
+		}
+		scriptA, envA := mk()
+		scriptB, _ := mk()
+		if r.Intn(3) == 0 {
+			// B calls a function only A defines
+			scriptB = "x = f1(1); return x;"
+		}
+		wantRefused := r.Intn(3) == 0
+		if wantRefused {
+			scriptB = refused[r.Intn(len(refused))]
+		}
+		noOpt := r.Intn(2) == 0
+		obj, _ := eng.FieldsToMap(condObject(envA.Fields, 2, r.Intn(4), r))
+		a, err := eng.New(scriptA, eng.Options{Vars: envA.Vars, NoOptimize: noOpt})
+		if err != nil {
+			return
+		}
+		a.Exec(obj)
+		fail := func(what string) {
+			c.Violation(id, "re-Prepare: "+strings.SplitN(what, ":", 2)[0], map[string]interface{}{"summary": what + "\n  first script: " + scriptA + "\n  second script: " + scriptB, "script_a": scriptA, "script_b": scriptB})
+		}
+		a.E.Script = scriptB
+		var perr error
+		var pan interface{}
+		func() {
+			defer func() { pan = recover() }()
+			if noOpt {
+				perr = a.E.Prepare([]byte{evalfilter.NoOptimize})
+			} else {
+				perr = a.E.Prepare()
+			}
+		}()
+		c.Case(scriptA+"=>"+scriptB, true)
+		if pan != nil {
+			fail(fmt.Sprintf("panic in the second Prepare: %v", pan))
+			return
+		}
+		if wantRefused && perr == nil {
+			fail("the second Prepare accepted an invalid script")
+			return
+		}
+		current := scriptB
+		if perr != nil {
+			current = scriptA // the old program must stay in force
+		}
+		// Dump must not panic
+		func() {
+			defer func() { pan = recover() }()
+			a.E.Dump()
+		}()
+		if pan != nil {
+			fail(fmt.Sprintf("Dump panics after the second Prepare (err=%v): %v", perr, pan))
+			return
+		}
+		ref, rerr := eng.New(current, eng.Options{NoOptimize: noOpt, NoHook: true})
+		if rerr != nil {
+			return
+		}
+		a.CopyVarsTo(ref)
+		if da, dr := a.ProgramDump(), ref.ProgramDump(); da != dr {
+			fail(fmt.Sprintf("the prepared program differs from a fresh evaluator of the script in force (second Prepare err=%v): %s", perr, diffLine(dr, da)))
+			return
+		}
+		if probs, _ := verifyPrepared(a); len(probs) > 0 {
+			fail(fmt.Sprintf("the prepared program is ill-formed after the second Prepare: %v", probs))
+			return
+		}
+		oa := a.E
+		resA, errA := oa.Execute(obj)
+		resR, errR := ref.E.Execute(obj)
+		if strings.Contains(fmt.Sprint(errA, errR), eng.ErrBudget.Error()) {
+			return
+		}
+		if (errA != nil) != (errR != nil) || (errA == nil && eng.Describe(resA) != eng.Describe(resR)) || a.GlobalsString() != ref.GlobalsString() {
+			fail(fmt.Sprintf("after the second Prepare (err=%v) the evaluator gives %s err=%v, a fresh evaluator of the script in force gives %s err=%v", perr, eng.Describe(resA), errA, eng.Describe(resR), errR))
+		}
 	})
 }
 
